@@ -9,7 +9,7 @@ from .values import (CellRef, Ref, Seq, Unmergeable, Unsupported, is_sym, ite, v
 
 
 class State:
-    __slots__ = ("frames", "heap", "cells", "pc", "next_cell", "log", "effects", "decisions")
+    __slots__ = ("frames", "heap", "cells", "pc", "next_cell", "log", "effects", "decisions", "ex")
 
     def __init__(self):
         self.frames = [{}]
@@ -17,6 +17,7 @@ class State:
         self.cells = {}     # cid -> Seq
         self.pc = []        # list of z3 Bool terms (assumptions on this path)
         self.decisions = set()   # ids of pc entries that are branch decisions (the rest are assumed facts)
+        self.ex = None           # owning executor (relational runs have two)
         self.next_cell = [1000]   # shared counter (list so that forks share it)
         self.log = None     # optional write/read log used by the loop analyser
         self.effects = []   # ordered list of abstract effects (file writes, chdir, ...), used by frame contracts
@@ -32,6 +33,7 @@ class State:
         s.cells = dict(self.cells)
         s.pc = list(self.pc)
         s.decisions = set(self.decisions)
+        s.ex = self.ex
         s.next_cell = self.next_cell
         s.log = self.log
         s.effects = list(self.effects)
